@@ -96,11 +96,10 @@ func scalarReflectFromGo(schema *schema_j5pb.Field, value interface{}) (protoref
 		}
 
 		if numVal, ok := value.(json.Number); ok {
-			i64, err := numVal.Int64()
-			if err != nil {
-				return pv, err
-			}
-			value = i64
+			// a bare number is parsed like its quoted spelling, with the width
+			// and signedness of the target format (Int64 would reject the
+			// upper half of uint64)
+			value = numVal.String()
 		}
 
 		switch st.Integer.Format {
